@@ -485,12 +485,17 @@ func (ck *c06Checker) runAndCheck(cases []c06Case) {
 	for i := range cases {
 		ck.check(cases[i], outs[i], ans[i], after[i])
 		ck.res.Evaluations++
+		if c06NontrivialRe.MatchString(outs[i].Stdout) {
+			ck.res.Count("runs.nontrivial", 1)
+		}
 	}
 }
 
 // unit part: the spec's summary printer against the real summary lines is covered by (d);
 // here the spec's own print/parse pair is exercised through the extracted code (cheap sanity
 // of the extraction; the theorem is C06run_summary_line_roundtrip).
+var c06NontrivialRe = regexp.MustCompile(`<U\+[0-9A-F]{4,}>|<0x[0-9A-F]{2}>|:\d+--\d+:`)
+
 func c06SpecSelfTest(ctx *Ctx, res *Result) {
 	var reqs []string
 	type ewn struct{ e, w, n int }
@@ -560,9 +565,9 @@ func runC06run(ctx *Ctx) *Result {
 		}
 	}
 	d := func(k string) int { v, _ := res.Distribution[k].(int); return v }
-	res.DistinctNontrivial = d("diag.with-escaped-byte") + d("diag.lineno.range")
+	res.DistinctNontrivial = d("runs.nontrivial")
 	res.TracesValidated = res.Evaluations
-	res.Rule = "a case = (generated hostile tree, cwd, argv with a random subset of -g -s -e -q -Werror -f|-F --only p and one of 9 ways of naming the targets); checks (a)-(d) of docs/C06run.md on every run; non-trivial (counted) = diagnostic lines that contain an escaped byte (<U+XXXX> / <0xNN>) plus diagnostic lines with an N--M range"
+	res.Rule = "a case = (generated hostile tree, cwd, argv with a random subset of -g -s -e -q -Werror -f|-F --only p and one of 9 ways of naming the targets); checks (a)-(d) of docs/C06run.md on every run; non-trivial (counted) = runs (cases are distinct by construction) whose stdout has at least one line with an escaped byte (<U+XXXX> / <0xNN>) or an N--M line range; the numbers of such lines are in the distribution"
 	for _, i := range []int{0, len(cases) / 3, len(cases) - 1} {
 		res.Sample(map[string]any{"cwd": cases[i].Cwd, "args": cases[i].Args})
 	}
